@@ -526,10 +526,50 @@ func (e *env) watchdog(normal time.Duration) time.Duration {
 type subPeerCase struct {
 	class, dim       string
 	kex, cipher, mac string
+	prefDim          string // preference-order case: dimension with a 3-name client offer ordered unlike the peer's list
+	prefKind         int
+}
+
+// peerOrder: sshref.Peer's (server) preference order per category, restricted
+// to what the Go client implements.
+func peerOrder(dim string) []string {
+	sup, ins := ssh.SupportedAlgorithms(), ssh.InsecureAlgorithms()
+	var goList, peerList []string
+	switch dim {
+	case "kex":
+		goList, peerList = allOf(sup, ins, func(a ssh.Algorithms) []string { return a.KeyExchanges }), sshref.PeerKexAlgos
+	case "cipher":
+		goList, peerList = allOf(sup, ins, func(a ssh.Algorithms) []string { return a.Ciphers }), sshref.Ciphers()
+	case "mac":
+		goList, peerList = allOf(sup, ins, func(a ssh.Algorithms) []string { return a.MACs }), sshref.MACs()
+	}
+	var out []string
+	for _, a := range peerList {
+		if a != "none" && slices.Contains(goList, a) {
+			out = append(out, a)
+		}
+	}
+	return out
 }
 
 func (e *env) runPeerCase(sc subPeerCase, i int64, r *rand.Rand) {
 	m := e.m
+	offers := map[string][]string{"kex": {sc.kex}, "cipher": {sc.cipher}, "mac": {sc.mac}}
+	prefDiffers := false
+	if sc.prefDim != "" {
+		order := peerOrder(sc.prefDim)
+		o := prefOffer(r, order, sc.prefKind)
+		offers[sc.prefDim] = o
+		switch sc.prefDim {
+		case "kex":
+			sc.kex = o[0]
+		case "cipher":
+			sc.cipher = o[0]
+		case "mac":
+			sc.mac = o[0]
+		}
+		prefDiffers = serverFirst(order, o) != o[0]
+	}
 	size := subSize(r, i)
 	if sc.class == "kex" {
 		size = 32768 + r.IntN(100000)
@@ -573,6 +613,9 @@ func (e *env) runPeerCase(sc subPeerCase, i int64, r *rand.Rand) {
 	}
 	desc := map[string]any{"part": "go-client->sshref.Peer (substitute)", "class": sc.class, "kex": sc.kex, "cipher": sc.cipher, "mac": sc.mac, "payload_len": size,
 		"client_rekey_threshold": thr, "peer_window": plan.window, "peer_max_packet": plan.maxPkt, "exit": plan.exit}
+	if sc.prefDim != "" {
+		desc["preference"] = map[string]any{"dimension": sc.prefDim, "go_client_offer": offers[sc.prefDim], "expected_rfc4253_7_1": offers[sc.prefDim][0], "peer_order": peerOrder(sc.prefDim)}
+	}
 
 	ln, err := net.Listen("tcp", "127.0.0.1:0")
 	if err != nil {
@@ -598,7 +641,7 @@ func (e *env) runPeerCase(sc subPeerCase, i int64, r *rand.Rand) {
 	}()
 	cfg := &ssh.ClientConfig{User: sshUser, Auth: []ssh.AuthMethod{ssh.PublicKeys(e.mt.goEd.signer)},
 		HostKeyCallback: ssh.FixedHostKey(e.mt.peerHostPub), HostKeyAlgorithms: []string{ssh.KeyAlgoED25519}}
-	cfg.KeyExchanges, cfg.Ciphers, cfg.MACs, cfg.RekeyThreshold = []string{sc.kex}, []string{sc.cipher}, []string{sc.mac}, thr
+	cfg.KeyExchanges, cfg.Ciphers, cfg.MACs, cfg.RekeyThreshold = offers["kex"], offers["cipher"], offers["mac"], thr
 	var crep clientReport
 	var prep *peerReport
 	cconn, err := net.Dial("tcp", ln.Addr().String())
@@ -681,7 +724,8 @@ func (e *env) runPeerCase(sc subPeerCase, i int64, r *rand.Rand) {
 			break
 		}
 	}
-	if a := crep.Algs; a == nil || a.KeyExchange != sc.kex || a.HostKey != ssh.KeyAlgoED25519 || a.Read.Cipher != sc.cipher || a.Write.Cipher != sc.cipher {
+	if a := crep.Algs; a == nil || a.KeyExchange != sc.kex || a.HostKey != ssh.KeyAlgoED25519 || a.Read.Cipher != sc.cipher || a.Write.Cipher != sc.cipher ||
+		(!isAEAD(sc.cipher) && (a.Read.MAC != sc.mac || a.Write.MAC != sc.mac)) {
 		bad("go-algorithms-differ", nil)
 		ok = false
 	}
@@ -725,6 +769,9 @@ func (e *env) runPeerCase(sc subPeerCase, i int64, r *rand.Rand) {
 	}
 	m.Count("sub_peer_ok", 1)
 	m.Count("sub_peer_ok_"+sc.class, 1)
+	if prefDiffers {
+		m.Count("sub_peer_pref_first_choices_differ_"+sc.prefDim, 1)
+	}
 	m.Count("sub_peer_key_exchanges", len(prep.Kexes))
 	m.Count("sub_peer_rekeys_started_by_peer", prep.ServerRekeys)
 	m.Count("sub_peer_rekeys_started_by_go_client", max(clientInit, 0))
@@ -1052,12 +1099,56 @@ type subTapCase struct {
 	kex, hostKeyAlg string
 	cipher, mac     string // "": PRNG
 	clientKeyFormat string
+	prefDim         string // preference-order case
+	prefKind        int
+}
+
+// goServerOrder: the order in which the harness's Go server lists a category
+// (newServerConfig: Supported ++ Insecure; host keys in AddHostKey order). What
+// the server really sent is re-read from its KEXINIT on the captured wire.
+func goServerOrder(dim string) []string {
+	sup, ins := ssh.SupportedAlgorithms(), ssh.InsecureAlgorithms()
+	switch dim {
+	case "kex":
+		return allOf(sup, ins, func(a ssh.Algorithms) []string { return a.KeyExchanges })
+	case "cipher":
+		return allOf(sup, ins, func(a ssh.Algorithms) []string { return a.Ciphers })
+	case "mac":
+		return allOf(sup, ins, func(a ssh.Algorithms) []string { return a.MACs })
+	}
+	var hk []string
+	for _, suffix := range []string{"", "-cert-v01@openssh.com"} {
+		for _, f := range hostFormats {
+			if f == ssh.KeyAlgoRSA {
+				hk = append(hk, ssh.KeyAlgoRSASHA256+suffix, ssh.KeyAlgoRSASHA512+suffix, ssh.KeyAlgoRSA+suffix)
+			} else {
+				hk = append(hk, f+suffix)
+			}
+		}
+	}
+	return hk
 }
 
 func (e *env) runTapCase(tc subTapCase, i int64, r *rand.Rand) {
 	m := e.m
 	ciphers := allOf(ssh.SupportedAlgorithms(), ssh.InsecureAlgorithms(), func(a ssh.Algorithms) []string { return a.Ciphers })
 	macs := allOf(ssh.SupportedAlgorithms(), ssh.InsecureAlgorithms(), func(a ssh.Algorithms) []string { return a.MACs })
+	offers := map[string][]string{}
+	if tc.prefDim != "" {
+		o := prefOffer(r, goServerOrder(tc.prefDim), tc.prefKind)
+		offers[tc.prefDim] = o
+		tc.kex, tc.hostKeyAlg, tc.cipher, tc.mac = bgKex, bgHostKey, bgCipher, bgMAC
+		switch tc.prefDim {
+		case "kex":
+			tc.kex = o[0]
+		case "hostkey":
+			tc.hostKeyAlg = o[0]
+		case "cipher":
+			tc.cipher = o[0]
+		case "mac":
+			tc.mac = o[0]
+		}
+	}
 	cipher, mac := tc.cipher, tc.mac
 	for cipher == "" {
 		c, ma := mon.Pick(r, ciphers), mon.Pick(r, macs)
@@ -1109,16 +1200,28 @@ func (e *env) runTapCase(tc subTapCase, i int64, r *rand.Rand) {
 		kexes = append(kexes, tapKex{a, k})
 		tmu.Unlock()
 	}}
-	cfg := &ssh.ClientConfig{User: sshUser, Auth: []ssh.AuthMethod{ssh.PublicKeys(ck)}, HostKeyAlgorithms: []string{tc.hostKeyAlg}}
-	cfg.KeyExchanges, cfg.Ciphers, cfg.MACs, cfg.RekeyThreshold = []string{tc.kex}, []string{cipher}, []string{mac}, cthr
-	format := hostKeyFormatOf(tc.hostKeyAlg)
-	if strings.Contains(format, "-cert-") {
-		chk := &ssh.CertChecker{IsHostAuthority: func(auth ssh.PublicKey, addr string) bool {
-			return bytes.Equal(auth.Marshal(), e.mt.host.ca.PublicKey().Marshal())
-		}}
-		cfg.HostKeyCallback = chk.CheckHostKey
-	} else {
-		cfg.HostKeyCallback = ssh.FixedHostKey(e.mt.host.plain[format].PublicKey())
+	offer := func(dim, pin string) []string {
+		if o, ok := offers[dim]; ok {
+			return o
+		}
+		return []string{pin}
+	}
+	cfg := &ssh.ClientConfig{User: sshUser, Auth: []ssh.AuthMethod{ssh.PublicKeys(ck)}, HostKeyAlgorithms: offer("hostkey", tc.hostKeyAlg)}
+	cfg.KeyExchanges, cfg.Ciphers, cfg.MACs, cfg.RekeyThreshold = offer("kex", tc.kex), offer("cipher", cipher), offer("mac", mac), cthr
+	if tc.prefDim != "" {
+		desc["preference"] = map[string]any{"dimension": tc.prefDim, "go_client_offer": offers[tc.prefDim], "expected_rfc4253_7_1": offers[tc.prefDim][0]}
+	}
+	chk := &ssh.CertChecker{IsHostAuthority: func(auth ssh.PublicKey, addr string) bool {
+		return bytes.Equal(auth.Marshal(), e.mt.host.ca.PublicKey().Marshal())
+	}}
+	cfg.HostKeyCallback = func(hostname string, remote net.Addr, key ssh.PublicKey) error {
+		if _, isCert := key.(*ssh.Certificate); isCert {
+			return chk.CheckHostKey(hostname, remote, key)
+		}
+		if want := e.mt.host.plain[key.Type()]; want == nil || !bytes.Equal(want.PublicKey().Marshal(), key.Marshal()) {
+			return errors.New("not the expected host key")
+		}
+		return nil
 	}
 	var crep clientReport
 	done, pv, pstack, _ := mon.RunTimed(e.watchdog(subWatchdog), func() {
@@ -1169,8 +1272,11 @@ func (e *env) runTapCase(tc subTapCase, i int64, r *rand.Rand) {
 		return
 	}
 	ok := true
-	if a := crep.Algs; a == nil || a.KeyExchange != tc.kex || a.HostKey != tc.hostKeyAlg || a.Read.Cipher != cipher || a.Write.Cipher != cipher ||
-		srep.Algs == nil || srep.Algs.KeyExchange != tc.kex || srep.Algs.HostKey != tc.hostKeyAlg {
+	macBad := func(a *ssh.NegotiatedAlgorithms) bool {
+		return !isAEAD(cipher) && (a.Read.MAC != mac || a.Write.MAC != mac)
+	}
+	if a := crep.Algs; a == nil || a.KeyExchange != tc.kex || a.HostKey != tc.hostKeyAlg || a.Read.Cipher != cipher || a.Write.Cipher != cipher || macBad(a) ||
+		srep.Algs == nil || srep.Algs.KeyExchange != tc.kex || srep.Algs.HostKey != tc.hostKeyAlg || srep.Algs.Read.Cipher != cipher || srep.Algs.Write.Cipher != cipher || macBad(srep.Algs) {
 		bad("negotiated-other", nil)
 		ok = false
 	}
@@ -1216,6 +1322,15 @@ func (e *env) runTapCase(tc subTapCase, i int64, r *rand.Rand) {
 	}
 	m.Count("sub_tap_ok", 1)
 	m.Count("sub_tap_ok_"+tc.class, 1)
+	if tc.prefDim != "" && len(ds.payloads) > 0 {
+		// the server's real order: its first KEXINIT on the captured wire
+		if sl, err := kexInitLists(ds.payloads[0]); err == nil {
+			real := map[string][]string{"kex": sl[0], "hostkey": sl[1], "cipher": sl[3], "mac": sl[5]}[tc.prefDim]
+			if o := offers[tc.prefDim]; serverFirst(real, o) != o[0] {
+				m.Count("sub_tap_pref_first_choices_differ_"+tc.prefDim, 1)
+			}
+		}
+	}
 	m.Count("sub_tap_key_exchanges", len(ks))
 	m.Count("sub_tap_exchange_hashes_recomputed", nh)
 	m.Count("sub_tap_packets_decrypted_by_sshref", len(dc.payloads)+len(ds.payloads))
@@ -1259,7 +1374,7 @@ func (e *env) runSubstitutes() {
 	reps := m.N(1, 3)
 	for rep := 0; rep < reps; rep++ {
 		for _, k := range peerKex {
-			pp = append(pp, subPeerCase{"kex", "kex=" + k, k, bgCipher, bgMAC})
+			pp = append(pp, subPeerCase{class: "kex", dim: "kex=" + k, kex: k, cipher: bgCipher, mac: bgMAC})
 		}
 	}
 	npairs, skipped := 0, 0
@@ -1280,8 +1395,15 @@ func (e *env) runSubstitutes() {
 					skipped++
 					continue
 				}
-				pp = append(pp, subPeerCase{"cipherXmac", "cipher=" + c + ",mac=" + ma, bgKex, c, ma})
+				pp = append(pp, subPeerCase{class: "cipherXmac", dim: "cipher=" + c + ",mac=" + ma, kex: bgKex, cipher: c, mac: ma})
 				npairs++
+			}
+		}
+	}
+	for rep := 0; rep < reps; rep++ {
+		for _, d := range []string{"kex", "cipher", "mac"} {
+			for k := 0; k < 2; k++ {
+				pp = append(pp, subPeerCase{class: "pref", dim: fmt.Sprintf("preference-order:%s:%s", d, []string{"reversed", "rotated"}[k]), kex: bgKex, cipher: bgCipher, mac: bgMAC, prefDim: d, prefKind: k})
 			}
 		}
 	}
@@ -1330,6 +1452,16 @@ func (e *env) runSubstitutes() {
 			}
 		}
 	}
+	for rep := 0; rep < reps; rep++ {
+		for _, d := range prefDims {
+			for k := 0; k < 2; k++ {
+				tp = append(tp, subTapCase{class: "pref", dim: fmt.Sprintf("preference-order:%s:%s", d, []string{"reversed", "rotated"}[k]), clientKeyFormat: ssh.KeyAlgoED25519, prefDim: d, prefKind: k})
+			}
+		}
+	}
+	for _, d := range prefDims {
+		m.Gate("sub_tap_pref_first_choices_differ_"+d, 2, "substitute: Go client offering 3 "+d+" algorithms in an order unlike the Go server's (order read from the server's KEXINIT on the wire), first choices differing: both ends must report the client's first choice")
+	}
 	if parts != "" && !strings.Contains(parts, "tap") {
 		tp = nil
 	}
@@ -1337,6 +1469,9 @@ func (e *env) runSubstitutes() {
 
 	m.Gate("sub_peer_ok_kex", len(peerKex), "substitute: the Go client completed a session with re-keys against sshref.Peer for every kex the peer implements")
 	m.Gate("sub_peer_ok_cipherXmac", npairs/reps, "substitute: the Go client completed a session with re-keys against sshref.Peer for every cipher x MAC pair (minus the known CBC x EtM pairs)")
+	for _, d := range []string{"kex", "cipher", "mac"} {
+		m.Gate("sub_peer_pref_first_choices_differ_"+d, 2, "substitute: Go client offering 3 "+d+" algorithms in an order unlike sshref.Peer's, first choices differing: both must settle on the client's first choice")
+	}
 	m.Gate("sub_peer_rekeys_started_by_go_client", 20, "substitute: re-keys started by the Go client (RekeyThreshold) and completed during the upload against sshref.Peer")
 	m.Gate("sub_peer_rekeys_started_by_peer", 60, "substitute: re-keys started by sshref.Peer")
 	m.Gate("sub_tap_ok_kex", len(goKex), "substitute: every kex of the package (incl. mlkem768x25519, DH group1/16, group exchange) ran Go<->Go with the exchange hash recomputed and the wire decrypted by sshref")
